@@ -10,6 +10,7 @@ CONSTANTS
   Exec <- cExec
   Loc <- cLoc
   HotPos = {6}
+  IterAt <- cIterAt
   DataKnown = {"w"}
   DataUnknown = {"nosuch"}
   Sw <- cSw
